@@ -77,9 +77,51 @@ def indices(expr, var, n):
     return None
 
 
+def convention_relations(mod):
+    """fallback when validate() contains no `gen(ARG) OP number[POS]` comparison: the usual conventions, kept when they hold
+    on every corpus number: the check is the last k characters, computed from the rest or from the whole number"""
+    out = []
+    nums = []
+    for x in corpus.valid_numbers(mod.__name__, 20):
+        try:
+            nums.append(mod.validate(x))
+        except Exception:      # noqa: B902
+            pass
+    if not nums:
+        return out
+    for name in sorted(k for k in dir(mod) if k.startswith('calc_check_digit')):
+        g = getattr(mod, name)
+        if not isinstance(g, types.FunctionType):
+            continue
+        for whole in (False, True):
+            ok = True
+            k = None
+            for v in nums:
+                try:
+                    for kk in (1, 2):
+                        ck = g(v if whole else v[:-kk])
+                        if isinstance(ck, str) and len(ck) == kk and v.endswith(ck):
+                            break
+                    else:
+                        ok = False
+                        break
+                    k = kk if k in (None, kk) else 0
+                except Exception:      # noqa: B902
+                    ok = False
+                    break
+            if ok and k:
+                arg = ast.parse('number' if whole else 'number[:-%d]' % k, mode='eval').body
+                pos = ast.parse('number[-1]' if k == 1 else 'number[-%d:]' % k, mode='eval').body
+                out.append((g, arg, pos, 'NotEq', 'number'))
+                break
+    return out
+
+
 def checker_factory(modname):
     mod = importlib.import_module(modname)
     vfn, rels = relations(mod)
+    if not rels:
+        rels = convention_relations(mod)
 
     def checker(sw, p, v, opts, n):
         if opts.get('validate_check_digits') is False:
@@ -123,16 +165,35 @@ def checker_factory(modname):
                     continue
                 r1s = tostr(r1)
                 if op in ('NotEq', 'Eq'):
-                    if len(r1s) != len(pos):
-                        continue
-                    c = str_eq(r1s, posv)
+                    c = str_eq(r1s, posv) if len(r1s) == len(pos) else False
                 else:
                     if len(pos) != 1:
                         continue
                     c = Or(*[in_set(posv.chars[0], ISet([(ch, ch)])) if isinstance(ch, int) else (posv.chars[0] == ch) for ch in r1s.chars]) if True else None
                 holds = c is True or (c is not False and ctx.entails(c))
                 if not holds:
-                    # this relation is not the one that justified acceptance on this path (format with several schemes)
+                    if len(rels) == 1 and modname not in ALTERNATIVES:
+                        # the only generator relation of the format: a valid number whose check character is not the generated one
+                        w = sw.witness(ctx, p.ctx.primary, None if c is False else Not(c))
+                        if w:
+                            rv = call_real(modname + ':validate', [w[0]], opts, w[1])
+                            gen = None
+                            if rv[0] == 'return':
+                                try:
+                                    vv = rv[1]
+                                    gen = g(''.join(vv[i] for i in arg))
+                                    present = ''.join(vv[i] for i in pos)
+                                    bad = (gen != present) if op in ('NotEq', 'Eq') else (present not in gen)
+                                except Exception as e2:      # noqa: B902
+                                    bad = True
+                                    gen = 'raises %s' % type(e2).__name__
+                            else:
+                                bad = False
+                            ok = False
+                            applicable = True
+                            sw.finding('check character differs from the generated one', g.__name__, input=w[0], opts=opts, today=w[1], approx=ctx.approx,
+                                       real=[list(rv[:2]), gen], reproduced=bool(bad))
+                    # otherwise: this relation is not the one that justified acceptance on this path (several schemes)
                     continue
                 applicable = True
                 if isinstance(r2, (str, FixedStr)) and len(tostr(r2)) == len(r1s):
@@ -210,6 +271,8 @@ def completion_bounded(rep, mods, tier):
         mod = importlib.import_module(m)
         try:
             vfn, rels = relations(mod)
+            if not rels:
+                rels = convention_relations(mod)
         except Exception:      # noqa: B902
             continue
         E = sys.modules['stdnum.exceptions']
@@ -283,13 +346,13 @@ def still_fails(k):
 
 def check(prop, tier, args):
     rep = Report('C05', tier, 'proof', './check C05 --tier %s' % tier, seed=int(os.environ.get('VERIF_SEED', '0') or 0))
-    units = accept.accepting_units()
     mods = []
     for m in front.number_modules():
         if any(k.startswith('calc_check_digit') for k in dir(m)):
             mods.append(m.__name__)
     if args.modules:
         mods = [m for m in mods if m in args.modules]
+    units = accept.accepting_units(modules=mods if args.modules else None)
     items = [(m, sorted({n for o, n in units.get(m, []) if n != 'long'}), tier) for m in mods if m in units]
     res = accept.run_modules(_task, items, 400 if tier == 'quick' else 2000)
     norel = []
